@@ -267,8 +267,64 @@ func (u *Unit) storeElem(st *State, s Value, idx *Term, v Value) {
 }
 
 // reads/writes logs (for footprint clauses)
-func (u *Unit) noteRead(st *State, elem types.Type, addr *Term)  {}
-func (u *Unit) noteWrite(st *State, elem types.Type, addr *Term) {}
+// noteRead: read footprint (C19). Every sample read by the function body lies
+// inside the readable extent [ptr, ptr+len) of a buffer or slice parameter (as
+// of function entry) or in storage the function allocated itself.
+func (u *Unit) noteRead(st *State, elem types.Type, addr *Term) {
+	if u.old == nil {
+		return
+	}
+	var alts []*Term
+	for _, pn := range u.ct.Params {
+		v, ok := u.entry[pn]
+		if !ok {
+			continue
+		}
+		if v.K == KStruct {
+			if b, ok := v.Fields["Buffer"]; ok {
+				v = b
+			}
+		}
+		switch v.K {
+		case KBuf:
+			if types.Identical(v.Elem, elem) {
+				d := u.bufData(u.old, v)
+				alts = append(alts, And(Le(d.Ptr, addr), Lt(addr, Add(d.Ptr, d.Len))))
+			}
+		case KSlice:
+			if in, ok := v.Elem.(*types.Slice); ok {
+				if types.Identical(in.Elem(), elem) {
+					c := boundVar("c?" + fmt.Sprint(u.nextBound()))
+					is := u.innerSlice(u.old, v, c)
+					alts = append(alts, Exists([]*Term{c}, And(Le(IntLit(0), c), Lt(c, v.Len), Le(is.Ptr, addr), Lt(addr, Add(is.Ptr, is.Len)))))
+				}
+			} else if types.Identical(v.Elem, elem) {
+				alts = append(alts, And(Le(v.Ptr, addr), Lt(addr, Add(v.Ptr, v.Len))))
+			}
+		}
+	}
+	// storage allocated by the function itself
+	alts = append(alts, Ge(addr, u.brk(u.old, elem)))
+	u.oblige(st, "reads", "reads:"+u.site("read"), []string{"C19"}, Or(alts...))
+}
+func (u *Unit) noteWrite(st *State, elem types.Type, addr *Term) {
+	u.writeEvent(st, "H:"+elemKey(elem))
+}
+
+// writeEvent: the function (or a callee) writes state component comp on this
+// path. For race freedom (C19) a write of an unchanged value is still a write,
+// so writes to components outside the contract's modifies clause are rejected
+// as events, not by comparing values.
+func (u *Unit) writeEvent(st *State, comp string) {
+	if u.old == nil || u.declaredModifies(comp) {
+		return
+	}
+	cls := comp
+	if i := strings.IndexByte(comp, ':'); i >= 0 {
+		cls = comp[:i]
+	}
+	u.oblige(st, "writes", "writes:"+cls+":"+u.site("write"), []string{"C19"}, False)
+}
 
 // fieldPath applies a (possibly promoted) field selection.
 func (u *Unit) fieldPath(st *State, base Value, recv types.Type, path []int) Value {
@@ -601,6 +657,7 @@ func (u *Unit) assign(st *State, lhs ast.Expr, v Value, define bool) {
 		base := u.eval(st, l.X)
 		if base.K == KBuf && l.Sel.Name == "data" && v.K == KSlice {
 			u.failure(st, "nil-deref", Lt(base.Term, IntLit(0)))
+			u.writeEvent(st, "dlen:"+elemKey(base.Elem))
 			u.setBufData(st, base, v)
 			return
 		}
@@ -610,6 +667,7 @@ func (u *Unit) assign(st *State, lhs ast.Expr, v Value, define bool) {
 				f = "bd"
 				delete(u.bdKnown, base.Term.String())
 			}
+			u.writeEvent(st, f+":"+elemKey(base.Elem))
 			u.setComp(st, f+":"+elemKey(base.Elem), Store(u.fld(st, base.Elem, f), base.Term, v.Term))
 			return
 		}
